@@ -609,6 +609,10 @@ func TestVerifC20Replay(t *testing.T) {
 		t.Fatal(err)
 	}
 	res.Stat("rows", int64(idx))
+	// behavioural meaning of StreamTimeout: behaviours of spec/ClientTimeoutsGen.tla against the real RouteTCP
+	if tp := kit.Env("VERIF_C20_TIMELINE", ""); tp != "" {
+		t.Run("timeline", func(t *testing.T) { c20Timeline(t, res, tp, kit.EnvInt("VERIF_C20_TIMELINE_CONFIGS", 2)) })
+	}
 	// binding self-test: rows whose KeepAlive expectation is falsified on purpose must be noticed. The
 	// outcome goes to the statistics only (tools/props/c20.py refuses to give a verdict if it is missed).
 	if pp := kit.Env("VERIF_C20_PROBE", ""); pp != "" {
@@ -638,7 +642,11 @@ func TestVerifC20Replay(t *testing.T) {
 func c20ReplayFile(t *testing.T, dir, path string) {
 	var rf struct {
 		Replay struct {
-			Case c20Case `json:"case"`
+			Case     c20Case `json:"case"`
+			Timeline *struct {
+				Behaviour c20TBehaviour `json:"behaviour"`
+				Config    c20TConfig    `json:"config"`
+			} `json:"timeline"`
 		} `json:"replay"`
 	}
 	raw, err := os.ReadFile(path)
@@ -647,6 +655,10 @@ func c20ReplayFile(t *testing.T, dir, path string) {
 	}
 	if err := json.Unmarshal(raw, &rf); err != nil {
 		t.Fatal(err)
+	}
+	if tl := rf.Replay.Timeline; tl != nil {
+		c20TReplayFile(t, dir, &tl.Behaviour, tl.Config)
+		return
 	}
 	row := rf.Replay.Case.Row
 	fs, cs, table := c20Run(dir, &row, rf.Replay.Case.Conc.Variant, func(string) {}, true)
